@@ -1,7 +1,9 @@
 ---- MODULE SwitchAckTrace ----
-(* Trace validation of the real Switch (real circuit map, real forwarding package in the switch's DB, mock   *)
-(* links): every recorded step is the SwitchAck step of that name, and what the real switch shows afterwards  *)
-(* (circuits pending/open, SettleFailFilter bit, packet handed to the incoming link) equals the model.        *)
+(* Trace validation of the real Switch (real circuit map, real forwarding package of a real channel in the   *)
+(* switch's DB, real channelLink.loadAndRemove as the garbage collector, mock links): every recorded step is  *)
+(* the SwitchAck step of that name, and what the real node shows afterwards (circuits pending/open, package   *)
+(* present / its state / its SettleFailFilter bit as read from the database, packet handed to the incoming    *)
+(* link) equals the model.                                                                                   *)
 EXTENDS SwitchAck, Json
 VARIABLE l
 Trace == ndJsonDeserialize("trace.ndjson")
@@ -9,16 +11,18 @@ Last == Trace[l - 1]
 Is(a) == l <= Len(Trace) /\ Trace[l].a = a /\ l' = l + 1
 TInit == SInit /\ l = 1
 Reset == /\ Is("Reset") /\ kind' = Trace[l].kind
-         /\ circ' = "open" /\ mb' = FALSE /\ pkg' = "none" /\ pend' = FALSE /\ got' = 0
+         /\ circ' = "open" /\ mb' = FALSE /\ pkg' = "none" /\ proc' = FALSE /\ owed' = FALSE /\ pend' = FALSE /\ got' = 0
 TNext == \/ Reset
-         \/ (Is("Pipe") /\ Pipe) \/ (Is("Lock") /\ Lock) \/ (Is("Commit") /\ Commit)
-         \/ (Is("Tick") /\ Tick) \/ (Is("Restart") /\ Restart)
+         \/ (Is("Pipe") /\ Pipe) \/ (Is("Revoke") /\ Revoke) \/ (Is("Hand") /\ Hand) \/ (Is("Lock") /\ Lock)
+         \/ (Is("Commit") /\ Commit) \/ (Is("Tick") /\ Tick) \/ (Is("GC") /\ GC) \/ (Is("Restart") /\ Restart)
          \/ (l = Len(Trace) + 1 /\ UNCHANGED <<svars, l>>)
 TSpec == TInit /\ [][TNext]_<<svars, l>>
 Live == l > 1
 B(x) == IF x THEN 1 ELSE 0
+Exists == pkg \in {"new", "acked"}
 ConformCircuits == Live => Last.pending = B(circ # "gone") /\ Last.open = B(circ # "gone")
 ConformDelivery == Live => Last.got = got
-\* the SettleFailFilter bit as read from the database
+\* the package as read from the database: present, FwdState beyond LockedIn, SettleFailFilter bit
+ConformPkg == Live => Last.npkg = B(Exists) /\ Last.proc = B(Exists /\ proc)
 ConformAck == Live => Last.acked = B(pkg = "acked")
 ====
